@@ -54,12 +54,12 @@ var cfForms = []string{"if", "ifelse-then", "ifelse-else", "elseif-mid", "elseif
 
 // further forms, combined with a representative subset of the forms above (cfExtraPartners): loop and
 // branch conditions whose last operand is negated, switches with an empty clause that matches
-var cfExtraForms = []string{"while-and-not", "while-or-not", "if-or-not", "switch-empty-case", "tagless-empty-case"}
+var cfExtraForms = []string{"while-and-not", "while-or-not", "if-or-not", "switch-empty-case", "tagless-empty-case", "switch-many-values", "for-call-cond"}
 var cfExtraPartners = []string{"if", "while", "for3", "range", "switch-mid", "tagless-default"}
 
 func cfIsLoop(f string) bool {
 	switch f {
-	case "forever", "while", "for3", "for3-assignpost", "range", "while-and-not", "while-or-not":
+	case "forever", "while", "for3", "for3-assignpost", "range", "while-and-not", "while-or-not", "for-call-cond":
 		return true
 	}
 	return false
@@ -155,6 +155,23 @@ func (b *cfBuilder) wrap(form string, inner []*S) []*S {
 		s.Cases = []*Case{{Vals: []*E{lit(TInt, 0)}, Body: nil}, {Vals: []*E{lit(TInt, 1), lit(TInt, 4)}, Body: []*S{b.m()}}}
 		s.HasDef, s.DefPos, s.Def = true, 2, b.after(inner)
 		body = []*S{s}
+	case "switch-many-values":
+		// clauses with three and four values (tests of different lengths); the tag matches the second of four, the last of
+		// three, or none
+		y := b.name("y")
+		s := &S{K: "switch", Tag: chooseE(4)}
+		s.Cases = []*Case{
+			{Vals: []*E{lit(TInt, 9), lit(TInt, 1), bin("+", TInt, v(y, TInt), lit(TInt, 10)), lit(TInt, 7)}, Body: b.after(inner)},
+			{Vals: []*E{bin("+", TInt, v(y, TInt), lit(TInt, 20)), lit(TInt, 8), lit(TInt, 2)}, Body: []*S{b.m()}},
+			{Vals: []*E{lit(TInt, 0), lit(TInt, 11), lit(TInt, 12), lit(TInt, 13), lit(TInt, 14)}, Body: []*S{b.m(v(y, TInt))}}}
+		s.HasDef, s.DefPos, s.Def = true, 1, []*S{b.m()}
+		body = []*S{{K: "decl", Names: []string{y}, Exprs: []*E{lit(TInt, 5)}}, s}
+	case "for-call-cond":
+		// the condition of a one-clause for statement is a bare call
+		k := b.name("k")
+		body = []*S{{K: "decl", Names: []string{k}, Exprs: []*E{lit(TInt, 0)}},
+			{K: "for", Cond: &E{K: "call", Fn: "more", Ty: TBool, NRes: 1, Args: []*E{v(k, TInt)}}, Body: b.after(append([]*S{{K: "incdec", Lhs: []*E{v(k, TInt)}, D: 1}, b.m(v(k, TInt))}, inner...))},
+			b.m(v(k, TInt))}
 	case "tagless-empty-case":
 		body = []*S{{K: "switch", Cases: []*Case{{Vals: []*E{chooseIs1()}, Body: nil}, {Vals: []*E{chooseIs1()}, Body: b.after(inner)}}, HasDef: true, DefPos: 2, Def: []*S{b.m()}}}
 	default:
@@ -235,7 +252,7 @@ func c06Family(depth int, stride int) []*Prog {
 				}
 				id := fmt.Sprintf("cf/%v/%s/guarded=%v/tight=%v", chain, jump, guarded, tight)
 				p := &Prog{ID: id, Pkg: "main", Main: "Main", NeedChoice: true}
-				p.Funcs = []*Func{{Name: "F", Body: inner}, {Name: "Main", Body: []*S{{K: "expr", E: &E{K: "call", Fn: "F"}, NRes: 0}, {K: "print", Ln: true, Exprs: []*E{{K: "str", Ty: TString, S: "end"}}}}}}
+				p.Funcs = []*Func{{Name: "more", Params: []string{"n"}, PTypes: []*Ty{TInt}, Results: []*Ty{TBool}, Body: []*S{ret(bin("<", TBool, v("n", TInt), lit(TInt, 2)))}}, {Name: "F", Body: inner}, {Name: "Main", Body: []*S{{K: "expr", E: &E{K: "call", Fn: "F"}, NRes: 0}, {K: "print", Ln: true, Exprs: []*E{{K: "str", Ty: TString, S: "end"}}}}}}
 				progs = append(progs, p)
 			}
 		}
